@@ -207,6 +207,84 @@ func registerStatic(e *Engine) {
 		}
 		panic(engErr("no call of %s in app.NewApp", want))
 	}
+	// ModuleLegacySubspace(module): the constant name in the app.GetSubspace("<name>") call that
+	// feeds the last argument of x/<module>.NewAppModule in app.NewApp.
+	in[rtwPkgPath+".ModuleLegacySubspace"] = func(p *Path, a []Value) Value {
+		module := cStr(a[0], "module")
+		fn := p.eng.findFuncByName(modPath + "/app.NewApp")
+		if fn == nil {
+			panic(engErr("app.NewApp not found (package app not loaded?)"))
+		}
+		want := modPath + "/x/" + module + ".NewAppModule"
+		for _, b := range orderedBlocks(fn) {
+			for _, ins := range b.Instrs {
+				c, ok := ins.(*ssa.Call)
+				if !ok {
+					continue
+				}
+				if sc := c.Call.StaticCallee(); sc == nil || sc.String() != want {
+					continue
+				}
+				var v ssa.Value = c.Call.Args[len(c.Call.Args)-1]
+				for i := 0; i < 6; i++ {
+					switch x := v.(type) {
+					case *ssa.MakeInterface:
+						v = x.X
+						continue
+					case *ssa.ChangeInterface:
+						v = x.X
+						continue
+					case *ssa.Call:
+						if sc := x.Call.StaticCallee(); sc != nil && strings.HasSuffix(sc.String(), ".GetSubspace") && len(x.Call.Args) > 0 {
+							p.hr.noteFunc(fn)
+							return p.foldSSA(x.Call.Args[len(x.Call.Args)-1], 0)
+						}
+					}
+					break
+				}
+				panic(engErr("legacy subspace argument of %s is not app.GetSubspace(<constant>)", want))
+			}
+		}
+		panic(engErr("no call of %s in app.NewApp", want))
+	}
+	// StaticCallConstArgs(fn, calleeSubstr): the constant arguments (rendered as text, "" for
+	// non-constants) of the first call in fn whose callee (static name, or method name of an
+	// interface call) contains calleeSubstr.
+	in[rtwPkgPath+".StaticCallConstArgs"] = func(p *Path, a []Value) Value {
+		fn := p.eng.findFuncByName(cStr(a[0], "function name"))
+		sub := cStr(a[1], "callee substring")
+		if fn == nil {
+			panic(engErr("function %v not found", a[0]))
+		}
+		p.hr.noteFunc(fn)
+		for _, b := range orderedBlocks(fn) {
+			for _, ins := range b.Instrs {
+				c, ok := ins.(*ssa.Call)
+				if !ok {
+					continue
+				}
+				name := ""
+				if sc := c.Call.StaticCallee(); sc != nil {
+					name = sc.String()
+				} else if c.Call.IsInvoke() {
+					name = "invoke:" + c.Call.Method.Name()
+				}
+				if !strings.Contains(name, sub) {
+					continue
+				}
+				var out []Value
+				for _, arg := range c.Call.Args {
+					s := ""
+					if k, ok := arg.(*ssa.Const); ok && k.Value != nil {
+						s = k.Value.ExactString()
+					}
+					out = append(out, VStr{StrC(s)})
+				}
+				return VSlice{Obj: p.newObj(&VArray{E: out}, "staticconsts"), Len: len(out), Cap: len(out)}
+			}
+		}
+		return VSlice{Nil: true}
+	}
 	// StaticCallArgFields(fn, calleeSubstr): for the first call in fn whose static callee name
 	// contains calleeSubstr, the struct field name each argument is read from ("" if it is not a
 	// plain field read).
